@@ -32,7 +32,7 @@ def gen_cases(seed, tier):
         # time-rescaling family: all rate constants x 10^-e and the grid x 10^e.  The master equation is invariant under this
         # (same jump chain, waiting times x 10^e), so with the same seed the rows must be those of the unscaled run; the replay
         # also runs the scaled case itself.  (added after the seeded change S_C05: "Lambda < 1e-9" treated as "nothing can fire")
-        if rng.random() < 0.3:
+        if rng.random() < 0.3 and not c["spec"].get("rules"):       # (a rule's own rate is not rescaled)
             e = rng.choice([3, 6, 9, 12, 15]); c2 = json.loads(json.dumps(c)); f = 10.0 ** (-e)
             for k in c2["spec"]["parameters"]:
                 if k.startswith(("k_", "kg_")): c2["spec"]["parameters"][k] *= f
